@@ -106,8 +106,10 @@ func BuildFunction(x *ast.FuncDecl, file *CodeContainer) *CodeFunction {
 func BuildFieldToProperty(fieldList []*ast.Field) []CodeProperty {
 	var properties []CodeProperty
 	for _, field := range fieldList {
-		property := BuildPropertyField(getFieldName(field), field)
-		properties = append(properties, *property)
+		for _, name := range getFieldNames(field) {
+			property := BuildPropertyField(name, field)
+			properties = append(properties, *property)
+		}
 	}
 	return properties
 }
